@@ -149,10 +149,12 @@ def gen_poly(rng, names, must=None, maxdeg=3):
     rng.shuffle(monos)
     return monos
 
-def gen_ops(rng, n_ops):
+SMALL_POOL = ["a", "a_v1", "x", "x_v1", "x_v2", "weight", "a_in0", "r", "r_in0", "u"]
+
+def gen_ops(rng, n_ops, small=False):
     """operator templates op_1..op_M: the inputs of op_j may be named after the outputs of op_i, i<j, so that every
     subset of them forms an acyclic operator graph; output names may coincide (several producers of one input)."""
-    names = rng.sample(POOL, len(POOL))
+    names = rng.sample(SMALL_POOL, len(SMALL_POOL)) if small else rng.sample(POOL, len(POOL))
     onames = rng.sample(OP_NAMES, n_ops)
     ops, outs = {}, []
     free_pool = [x for x in names]
@@ -266,10 +268,11 @@ def add_edge(c, s, t, w, rng):
 
 def gen_case(rng, mode="valid"):
     """mode: valid (satisfies the guards) | d3 (two variables of one source node into one target variable)
-             | d22 (an edge whose source and target variable have the same name)"""
+             | d22 (names of the generated in_edge operator clash, e.g. source and target variable have the same name)
+             | lab (an operator that owns both a variable `a` and a variable a_v<k>)"""
     for _ in range(200):
         n_ops = rng.randint(1, 4)
-        ops = gen_ops(rng, n_ops)
+        ops = gen_ops(rng, n_ops, small=(mode in ("lab", "d22")))
         depth = rng.choice([0, 0, 1, 1, 2])
         n_nodes = rng.randint(1, 5)
         tree = gen_tree(rng, ops, depth, n_nodes)
@@ -326,7 +329,9 @@ def gen_case(rng, mode="valid"):
             continue
         if mode == "d22" and py_guard_names(case):
             continue
-        if not py_guard_labels(case):
+        if (mode == "lab") == py_guard_labels(case):
+            continue
+        if not py_guard_parser(case):
             continue
         if (mode == "d3") == py_guard_d3(case):
             continue
@@ -408,15 +413,21 @@ def py_guard_names(case):
 
 def py_guard_labels(case):
     """mirror of Edges.guard_labels"""
-    targets = {split_vid(t) for s, t, w in tree_edges(case["tree"])}
     for path, nops in tree_nodes(case["tree"]):
-        outs = [case["ops"][on]["out"] for on, _ in nops]
         for on, _ in nops:
-            vs = case["ops"][on]["vars"]
-            for v, kind, _ in vs:
-                if kind == "input" and (v in outs or (path, on, v) in targets):
-                    if any(is_vk_of(v, v2) for v2, _, _ in vs):
-                        return False
+            vs = [v for v, _, _ in case["ops"][on]["vars"]]
+            if any(is_vk_of(a, b) for a in vs for b in vs):
+                return False
+    return True
+
+def py_guard_parser(case):
+    """mirror of Edges.guard_parser: no input variable with degree >= 3 in a monomial"""
+    for on, o in case["ops"].items():
+        ins = [v for v, k, _ in o["vars"] if k == "input"]
+        for lhs, de, p in o["eqs"]:
+            for c, facs in p:
+                if any(facs.count(a) >= 3 for a in ins):
+                    return False
     return True
 
 def py_guard_d3(case):
@@ -621,7 +632,7 @@ def model_compare(ctx, cases, outs, tag):
     """Evaluates Spec, Impl and the guards inside Coq.  Returns dict of index lists:
        badS / badI: observed real-code values differ from Spec / Impl (only cases that produced values);
        nwf: not well-formed; g_d3 / g_names / g_labels: guard false."""
-    res = dict(badS=[], badI=[], nwf=[], g_d3=[], g_names=[], g_labels=[])
+    res = dict(badS=[], badI=[], nwf=[], g_d3=[], g_names=[], g_labels=[], g_parser=[])
     shard = 25
     for s in range(0, len(cases), shard):
         body, observed = [], []
@@ -629,19 +640,20 @@ def model_compare(ctx, cases, outs, tag):
             txt, ok = coq_case(i - s, cases[i], outs[i])
             body.append(txt); observed.append(ok)
         k = len(observed)
-        body.append("Definition cases := " + clist([f"c{i}" for i in range(k)]) + ".")
-        body.append("Definition observed := " + clist([f"c{i}" for i in range(k) if observed[i]]) + ".")
+        body.append("Definition cases : list obs := " + clist([f"c{i}" for i in range(k)]) + ".")
+        body.append("Definition observed : list obs := " + clist([f"c{i}" for i in range(k) if observed[i]]) + ".")
         body += ["Eval vm_compute in (mismatches okS observed).", "Eval vm_compute in (mismatches okI observed).",
                  "Eval vm_compute in (mismatches (fun o => wf (net_of o)) cases).",
                  "Eval vm_compute in (mismatches (fun o => guard_d3 (net_of o)) cases).",
                  "Eval vm_compute in (mismatches (fun o => guard_names (net_of o)) cases).",
-                 "Eval vm_compute in (mismatches (fun o => guard_labels (net_of o)) cases)."]
+                 "Eval vm_compute in (mismatches (fun o => guard_labels (net_of o)) cases).",
+                 "Eval vm_compute in (mismatches (fun o => guard_parser (net_of o)) cases)."]
         o = coq_eval(ctx, f"c01_{tag}_{s}", HEADER, "\n".join(body))
         ls = parse_nat_lists(o)
-        assert len(ls) == 6, o[:600]
+        assert len(ls) == 7, o[:600]
         obs_idx = [s + i for i in range(k) if observed[i]]
         res["badS"] += [obs_idx[i] for i in ls[0]]; res["badI"] += [obs_idx[i] for i in ls[1]]
-        for name, l in zip(("nwf", "g_d3", "g_names", "g_labels"), ls[2:]):
+        for name, l in zip(("nwf", "g_d3", "g_names", "g_labels", "g_parser"), ls[2:]):
             res[name] += [s + i for i in l]
     return res
 
@@ -652,8 +664,210 @@ def model_outputs(ctx, case, out, tag):
     for j, pt in enumerate(case["points"][:2]):
         env = f"(assoc_env {c_assoc(pt['state'])} zero_env) (assoc_env {c_assoc(pt['params'])} (declared_env {n}))"
         body.append(f"Eval vm_compute in (map (fun v => (v, deriv {n} {env} v, deriv_impl {n} {env} v)) (state_vars {n})).")
-    body.append(f"Eval vm_compute in (wf {n}, guard_d3 {n}, guard_names {n}, guard_labels {n}).")
+    body.append(f"Eval vm_compute in (wf {n}, guard_d3 {n}, guard_names {n}, guard_labels {n}, guard_parser {n}).")
     try:
         return coq_eval(ctx, f"c01_show_{tag}", HEADER, "\n".join(body))[:8000]
     except Exception as e:
         return f"(model evaluation failed: {e})"
+
+# ---------------------------------------------------------------------------------------------- verdict helpers
+GUARDS = {"g_d3": "guard_d3", "g_names": "guard_names", "g_labels": "guard_labels", "g_parser": "guard_parser"}
+PROPOSED = {   # findings this check proposes for known_findings.json (used for attribution only while not yet listed there)
+    "guard_d3": dict(id="C01-D3", witness="corpus/C01/d3_witness.json",
+                     text="two different variables of ONE source node project to the same target variable: _collect_from_edges keys by "
+                          "source node only, the first variable is used with the sum of both weights (silent wrong value)"),
+    "guard_names": dict(id="C01-D22", witness="corpus/C01/d22_witness.json",
+                        text="a name generated for the in_edge operator (source variable, target variable, `weight`, `<v>_in<i>`, "
+                             "`weight_in<i>`) coincides with another one, e.g. source and target variable have the same name or a variable "
+                             "is called `weight`: NameError / UnboundLocalError at the first call, or a silently wrong value"),
+    "guard_labels": dict(id="C01-D22b", witness="corpus/C01/labels_witness.json",
+                         text="an operator owns both a variable `a` and a variable named like a generated label `a_v<k>`: label and user "
+                              "variable are taken for one another in replace_in_expr (silently wrong value, a state variable missing from the "
+                              "layout, or NameError)"),
+    "guard_parser": dict(id="C01-P1", witness="corpus/C01/parser_witness.json",
+                         text="an input variable with >= 2 sources (sum-substituted by _collect_ops) occurs with degree >= 3 in a right-hand "
+                              "side: AttributeError ('Add' object has no attribute 'shape') at compile time (expression parser, loud)"),
+}
+
+def failed_out(o):
+    return (not isinstance(o, dict)) or "outs" not in o or any("err" in x for x in o["outs"])
+
+def nontrivial(case):
+    """>= 2 nodes, >= 1 edge, some input variable with fan-in >= 2 or a same-node producer (DESIGN summary table)"""
+    nodes = tree_nodes(case["tree"])
+    edges = tree_edges(case["tree"])
+    if len(nodes) < 2 or not edges:
+        return False
+    fan = {}
+    for s_, t_, w in edges:
+        fan[t_] = fan.get(t_, 0) + 1
+    if any(v >= 2 for v in fan.values()):
+        return True
+    for path, nops in nodes:
+        outs = [case["ops"][on]["out"] for on, _ in nops]
+        for on, _ in nops:
+            if any(k == "input" and v in outs for v, k, _ in case["ops"][on]["vars"]):
+                return True
+    return False
+
+def evaluate(ctx, cases, tag):
+    """run the real code and the models; returns (outs, crashed, cmp)"""
+    outs = run_impl(ctx, "c01", "impl", cases, per_case_timeout=120)
+    crashed = [i for i, o in enumerate(outs) if failed_out(o)]
+    cmp_ = model_compare(ctx, cases, outs, tag)
+    return outs, crashed, cmp_
+
+def fails(ctx, case, tag):
+    outs, crashed, cmp_ = evaluate(ctx, [case], tag)
+    return bool(crashed or cmp_["badS"]), outs[0]
+
+def drop_unused_ops(case):
+    used = {on for _, nops in tree_nodes(case["tree"]) for on, _ in nops}
+    case["ops"] = {k: v for k, v in case["ops"].items() if k in used}
+    return case
+
+def shrink(ctx, case, budget=14):
+    """greedy: drop points, edges, nodes (with their edges) while the disagreement with Spec persists"""
+    import copy
+    best = copy.deepcopy(case)
+    def edges_of(c, acc):
+        acc.append(c)
+        for _, sc in c["subs"]:
+            edges_of(sc, acc)
+        return acc
+    def candidates(c):
+        if len(c["points"]) > 1:
+            for i in range(len(c["points"])):
+                d = copy.deepcopy(c); d["points"] = [c["points"][i]]; yield d
+        circs = edges_of(c["tree"], [])
+        for ci in range(len(circs)):
+            for ei in range(len(circs[ci]["edges"])):
+                d = copy.deepcopy(c); del edges_of(d["tree"], [])[ci]["edges"][ei]; yield d
+        nodes = [p for p, _ in tree_nodes(c["tree"])]
+        for p in nodes:
+            if len(nodes) < 2:
+                break
+            d = copy.deepcopy(c)
+            def rm(cc, pre):
+                cc["nodes"] = [n for n in cc["nodes"] if pre + n[0] != p]
+                for sn, sc in cc["subs"]:
+                    rm(sc, pre + sn + "/")
+                cc["subs"] = [x for x in cc["subs"] if x[1]["nodes"] or x[1]["subs"]]
+            rm(d["tree"], "")
+            def prune(cc, pre):
+                keep = []
+                for s_, t_, w in cc["edges"]:
+                    if not ((pre + s_).startswith(p + "/") or (pre + t_).startswith(p + "/")):
+                        keep.append([s_, t_, w])
+                cc["edges"] = keep
+                for sn, sc in cc["subs"]:
+                    prune(sc, pre + sn + "/")
+            prune(d["tree"], "")
+            if not tree_nodes(d["tree"]):
+                continue
+            live = {f"{pp}/{on}/{v}" for pp, nops in tree_nodes(d["tree"]) for on, _ in nops for v, _, _ in d["ops"][on]["vars"]}
+            for pt in d["points"]:
+                pt["state"] = {k: v for k, v in pt["state"].items() if k in live}
+                pt["params"] = {k: v for k, v in pt["params"].items() if k in live}
+            yield drop_unused_ops(d)
+    progressed = True
+    while progressed and budget > 0:
+        progressed = False
+        for cand in candidates(best):
+            if budget <= 0:
+                break
+            budget -= 1
+            try:
+                if py_wf(cand) and fails(ctx, cand, f"s{budget}")[0]:
+                    best, progressed = cand, True
+                    break
+            except Exception:
+                continue
+    return best
+
+# ---------------------------------------------------------------------------------------------- check
+def check(ctx):
+    pr = proof_gate(ctx, NEEDS)
+    problem = proof_problem(pr)
+    n_valid, n_d3, n_d22, n_lab = (150, 10, 6, 4) if ctx.tier == "quick" else (3000, 150, 60, 40)
+    if problem:
+        n_valid *= 4
+    if ctx.replay:
+        rp = json.load(open(ctx.replay))
+        cases = [rp["case"]] if "case" in rp else []
+    else:
+        cases = ([c["case"] if "case" in c and "ops" not in c else c for c in load_corpus("C01")] +
+                 [gen_case(ctx.rng) for _ in range(n_valid)] + [gen_case(ctx.rng, "d3") for _ in range(n_d3)] +
+                 [gen_case(ctx.rng, "d22") for _ in range(n_d22)] + [gen_case(ctx.rng, "lab") for _ in range(n_lab)])
+    outs, crashed, cmp_ = evaluate(ctx, cases, "main")
+    badS, badI = cmp_["badS"], cmp_["badI"]
+    if cmp_["nwf"]:
+        raise RuntimeError(f"generator produced cases that are not well-formed (Net.wf = false): {cmp_['nwf'][:5]}")
+    guard_viol = {}
+    for k, g in GUARDS.items():
+        for i in cmp_[k]:
+            guard_viol.setdefault(i, []).append(g)
+    n_eval = sum(len(o["outs"]) for o in outs if isinstance(o, dict) and "outs" in o)
+    ctx.note(f"E1: {len(cases)} networks, {n_eval} vector-field evaluations; real-vs-Impl mismatches {len(badI)}, real-vs-Spec mismatches "
+             f"{len(badS)}, raised/crashed {len(crashed)}; outside guards: d3 {len(cmp_['g_d3'])}, names {len(cmp_['g_names'])}, labels {len(cmp_['g_labels'])}, "
+             f"parser {len(cmp_['g_parser'])}")
+    # failures of inputs outside a guard whose finding is proposed but not yet listed in known_findings.json are attributed here
+    listed = {f.get("guard") for f in known_findings("C01")}
+    pending = {}
+    for i in sorted(set(badS) | set(crashed)):
+        gv = guard_viol.get(i, [])
+        if gv and not any(g in listed for g in gv):
+            pending.setdefault(gv[0], []).append(i)
+    skip = {i for l in pending.values() for i in l}
+    def show(c):
+        bad, r = fails(ctx, c, "show")
+        return dict(implementation_output=r, model_output=model_outputs(ctx, c, r, "showm"))
+    def witness_check(f):
+        c = json.load(open(os.path.join(VERIF, f["witness"])))
+        return fails(ctx, c.get("case", c) if "ops" not in c else c, "wit")[0]
+    conclude(ctx, cases=cases, impl_out=outs, bad_spec=[i for i in badS if i not in skip], bad_impl=badI,
+             crashed=[i for i in crashed if i not in skip], problem=problem, guard_viol=guard_viol,
+             spec_name="Net.deriv (each derivative is its own equation; inputs = producers + all edges, or the default)",
+             impl_name="Edges.deriv_impl", shrink=lambda c: shrink(ctx, c), show=show, witness_check=witness_check)
+    for g, idxs in pending.items():
+        f = PROPOSED[g]
+        try:
+            still = witness_check(f)
+        except Exception as e:
+            still = True; ctx.note(f"witness of {f['id']} could not be replayed: {e}")
+        if still:
+            known(ctx, f"{f['id']}: {f['text']} (proposed entry, not yet in known_findings.json; witness still fails; "
+                       f"{len(idxs)} generated cases outside {g} attributed)")
+    drift_out = [i for i in badI if i not in badS and guard_viol.get(i)]
+    nt = {canon(dict(ops=c["ops"], tree=c["tree"])) for c in cases if nontrivial(c)}
+    hist = dict(streams=dict(valid=sum(1 for c in cases if c.get("mode") == "valid"), d3=sum(1 for c in cases if c.get("mode") == "d3"),
+                             names=sum(1 for c in cases if c.get("mode") == "d22"), labels=sum(1 for c in cases if c.get("mode") == "lab")),
+                nodes={k: sum(1 for c in cases if len(tree_nodes(c["tree"])) == k) for k in range(1, 6)},
+                depth={d: sum(1 for c in cases if max(p.count("/") for p, _ in tree_nodes(c["tree"])) == d) for d in range(3)},
+                edges=sum(len(tree_edges(c["tree"])) for c in cases),
+                with_parallel_edges=sum(1 for c in cases if len({(s_, t_) for s_, t_, _ in tree_edges(c["tree"])}) < len(tree_edges(c["tree"]))),
+                with_self_loop=sum(1 for c in cases if any(split_vid(s_)[0] == split_vid(t_)[0] for s_, t_, _ in tree_edges(c["tree"]))),
+                with_unconnected_input=sum(1 for c in cases if any(kind_of(c, split_vid(v)) == "input" for v in param_vars(c))),
+                state_dim_max=max((o["ny"] for o in outs if isinstance(o, dict) and "ny" in o), default=0))
+    sample = dict(ops=cases[-1]["ops"], tree=cases[-1]["tree"]) if cases else {}
+    write_evidence(ctx, evaluations=n_eval, distinct_nontrivial=len(nt),
+                   rule="random scalar networks (1-5 nodes, 1-3 operators per node chained by variable name, DE and algebraic equations, "
+                        "polynomial right-hand sides of degree <= 3 with coefficients k/4, several inputs per operator, random declaration "
+                        "order, fan-in/fan-out, parallel edges, self loops, hierarchy depth 0-2, names from a pool with r, rr, r_in, r_in0, "
+                        "m_in2, weight, x_v1, source, a_in0), each compiled with get_run_func(vectorize=False, float64) and evaluated at 3 dyadic "
+                        "states x 2 parameter assignments; a network is non-trivial when it has >= 2 nodes, >= 1 edge and some input variable "
+                        "with fan-in >= 2 or a same-node producer; distinct = distinct canonical JSON of (operators, circuit tree)",
+                   samples=[sample],
+                   extra=dict(input_distribution=hist, impl_vs_model_mismatches=len(badI), impl_vs_spec_mismatches=len(badS),
+                              raised=len(crashed), outside_guards={g: len(cmp_[k]) for k, g in GUARDS.items()},
+                              attributed_to_proposed_findings={g: len(v) for g, v in pending.items()},
+                              code_better_than_model_outside_guards=len(drift_out),
+                              also_checked="state map positions pairwise distinct, inside y and covering exactly the declared state variables; "
+                                           "returned argument values and initial state = declared or overridden values (Edges.layout_ok, values_ok)"),
+                   trusted_base=["numpy float64 arithmetic is exact on the generated dyadic data (the generator rejects points whose intermediate "
+                                 "values need more than 44 bits; results are compared as exact rationals)",
+                                 "sympy parsing/printing and the generated Python source are outside the model; they are exercised by every case"],
+                   assumptions=["guards of C01_partial: guard_d3 (one source variable per source node and target variable), guard_names, "
+                                "guard_labels (no clash between generated names/labels and user names) — classified by the Coq booleans",
+                                "models without any differential equation, cyclic operator graphs and algebraic loops are not well-formed (Net.wf)",
+                                "IEEE rounding is outside the model: the model computes in Qc"])
